@@ -17,7 +17,7 @@ from ..gen import spec as gs
 from . import _generic as g
 
 PROP = "C07"
-CLASSES = {"int-status-key-drops-operation": "F16", "yaml-int-status-key": "F16", "dedup-suffix-collision": "F17",
+CLASSES = {"int-status-key-drops-operation": "F16", "yaml-int-status-key": "F16",
            "empty-operation-id-drops-operation": "F44", "duplicate-tag-same-client": "F45"}
 
 
@@ -143,9 +143,7 @@ def judge(case: dict, res: dict) -> list[tuple[str, str]]:
 def attribute(case: dict, cls: str, msg: str) -> str | None:
     if case.get("int_status_keys"):
         return "F16"   # every operation with an integer status key is dropped with a warning (an empty client may then not even import)
-    if case.get("dup_ids") and cls == "method-count":
-        return "F17"
-    return None
+    return None   # (F17 - colliding ids ending under one method name - is repaired: a wrong method count is a violation)
 
 
 def to_int_status_keys(doc: dict) -> dict:
@@ -211,8 +209,7 @@ def check(run: Run, ctx) -> None:
             continue
         for pos, strat in enumerate(case.get("strategies") or [case["strategy"]]):
             c2 = {**case, "strategy": strat, "position_in_process": pos}
-            if not case["dup_ids"]:
-                c2["predicted"] = pred.get((case["id"], strat))
+            c2["predicted"] = pred.get((case["id"], strat))   # also for colliding ids (F17 repaired: the suffixes are the model's)
             cases.append(c2)
             results.append(res["by_strategy"][strat])
     for case, res in zip(cases, results):
@@ -237,15 +234,7 @@ def check(run: Run, ctx) -> None:
             elif len(run.violations) < 5:
                 run.violation("input", {k: case.get(k) for k in ("doc", "strategy", "strategies", "fmt", "dup_ids", "int_status_keys", "predicted")}, observed=msg,
                               expected="one coroutine method per (operation, tag group), every tag client a property of APIClient", what=f"{cls}: {msg[:300]}")
-    # F17 (listed for C07 and C20): replay its witness on the real de-duplication pass.  (End to end the force path runs
-    # the pass twice, which happens to re-suffix the clash away; the diff path does not.)
-    from . import C20
-
-    def fails(fid, w):
-        if fid == "F17":
-            return C20.replay(run, ctx, {"case": w})
-        return None
-    known.replay_witnesses(fails)
+    known.replay_witnesses(lambda fid, w: None)   # no open finding of C07 carries a stored witness
     known.report_unreplayed()
 
 
